@@ -2,6 +2,7 @@
 SPEC = {
     "bins": [
         {"name": "c09", "pkg": "./zz_verif/c09", "run": ".", "shards": {"quick": 1, "thorough": 16}},
+        {"name": "c09-ed25519", "pkg": "./sign/ed25519", "run": "^TestVerifC09", "whitebox": True, "shards": {"quick": 1, "thorough": 4}},
     ],
     "rule": "TODO",
     "assumptions": COMMON_ASSUME,
